@@ -115,8 +115,9 @@ theorem C17_remembers_exactly_last_reads {decls : Nat → List Decl} (hd : Decls
     ∃ v ps, x.value = some v ∧ PathR x.tree ps v ∧ ∀ e, e ∈ ps ↔ e ∈ x.parents :=
   ((reachable_good hd h).inv.evald c x hx (by simp [NoS])).2 hf
 
-/-- **Minimal recomputation** (partial: stated for the Computable that is read; the Computables it reads in
-    turn satisfy the same statement at their own reads — lemma `callC_spec` — but this is not assembled into
+/-- **Minimal recomputation** (partial: stated for the Computable that is read; of the Computables it reads in
+    turn, `C17_read_leaves_clean_and_later_untouched` says that the clean ones do not run; that a *dirty* one below it
+    runs only for one of the reasons given here holds at its own read — lemma `callC_spec` — but is not assembled into
     one statement about all of them).  A read — returning or raising — runs the function body at most once, and
     only if it never ran before, or raised the last time it ran (`first`), or some value it read last time (by the
     previous theorem: some remembered pair) differs from the present value of that Observable / the up-to-date
@@ -142,6 +143,21 @@ theorem C17_minimal_partial {decls : Nat → List Decl} (hd : DeclsOK decls) {s 
     rcases (herr e rfl).failed with hnone | ⟨y, hy, _, _, _, hj⟩
     · rw [hx] at hnone; cases hnone
     · exact ⟨y, hy, fin y (hj x hx)⟩
+
+/-- **A read runs nothing it need not run, also among the Computables it reads in turn** (the assembled part of
+    minimality): whatever a read of `c` — returning or raising — does in nested reads, pre-checks and evaluations,
+    every Computable whose cache is valid (not dirty) stays exactly as it is — its function does not run, its
+    remembered values and its counter are untouched — and so does every Computable defined after `c`. -/
+theorem C17_read_leaves_clean_and_later_untouched {decls : Nat → List Decl} (hd : DeclsOK decls) {s s' : St}
+    (h : Reachable decls s) {fuel c : Nat} {r : R} (hr : step fuel s (.read c) = some (s', r)) :
+    (∀ q x, s.comps q = some x → x.dirty = false → s'.comps q = some x) ∧
+    (∀ q, c < q → s'.comps q = s.comps q) := by
+  have g := reachable_good hd h
+  obtain ⟨hok, herr⟩ := (exec_IH fuel).get c s s' r NoS g.stat g.inv (by simp [NoS])
+    (fun q hq => by simp [NoS] at hq) hr
+  cases r with
+  | ok v => exact ⟨(hok v rfl).keepClean, fun q hq => (hok v rfl).above q hq (by rw [g.cur]; simp)⟩
+  | err e => exact ⟨(herr e rfl).keepClean, (herr e rfl).above⟩
 
 /-- A read of a Computable that is not dirty runs no function at all and changes nothing. -/
 theorem C17_cached_read_is_free {decls : Nat → List Decl} (hd : DeclsOK decls) {s : St} (h : Reachable decls s)
@@ -433,6 +449,15 @@ example (s : St) (h : s.store (0, 1) = i 0) : DenFail s divTree := by
 example : Pure divTree ∧ Ranked 0 divTree :=
   ⟨.read _ _ fun d => by by_cases h : d = i 0 <;> simp only [h, if_true, if_false] <;> first | exact .fail | exact .ret _,
    .read _ _ fun d => by by_cases h : d = i 0 <;> simp only [h, if_true, if_false] <;> first | exact .fail | exact .ret _⟩
+
+/-- non-vacuity of `C17_read_leaves_clean_and_later_untouched`: `c4 = 10 // d`, `c = x + c4`; after `x = 3` the read
+    of `c` runs the function of `c` a second time and not that of `c4` (clean: counter still 1) -/
+example : (runOps 60 (init flDecls fun _ => [])
+    [.assign (0, 1) (i 1), .define 0 0 2 divTree,
+     .define 1 0 3 (.read (0, 0) fun x => .readC 0 fun a => .ret (vadd x a)),
+     .assign (0, 0) (i 3), .read 1]).map
+      (fun res => (res.2.getLast?, (res.1.comps 0).map (·.evals), (res.1.comps 1).map (·.evals))) =
+    some (some (.ok (i 13)), some 1, some 2) := by decide +kernel
 
 /-! ### cycles: non-vacuity -/
 
